@@ -240,6 +240,8 @@ Inductive op :=
 | ESectionTyped (n : Z) (ty : Z)        (* elffile.get_section(n, type=(<the type named ty>,)) *)
 | RefetchDwarf                          (* elffile.get_dwarf_info() once more on the ELFFile the DWARFInfo in use came
                                            from; the client goes on with the DWARFInfo it already holds *)
+| DIEAtOutside (u o : Z)                (* get_CU_at(u).get_DIE_from_refaddr(o) for an offset o outside the entries of
+                                           the unit (inside its header, or at / past its end) *)
 | CUAtFailing (off : Z) (e : err) (c : Z). (* dwarfinfo.get_CU_at(off) at an offset where NO unit starts and where a
                                            freshly opened object raises e, leaving the .debug_info cursor at c
                                            (c < 0: the stream is not touched).  Which offsets fail, and how, is a
